@@ -229,6 +229,12 @@ impl G<'_> {
     // leaves
 
     fn int_text(&mut self) -> (String, u64) {
+        // zero-padded spellings longer than any u64 digit count
+        if self.r.chance(1, 40) {
+            let v = self.r.below(1000) as u64;
+            let width = self.r.pick(&[20usize, 21, 22, 30]);
+            return (format!("{v:0width$}"), v);
+        }
         let v: u64 = match self.r.below(6) {
             0 => 0,
             1 => 1,
